@@ -1154,4 +1154,75 @@ theorem keywords_are_the_codes :
   refine ⟨by decide, by decide, by decide⟩
 
 
+/-- ★ a read error of the command reader: once descriptor 0 — the script's descriptor — is closed
+    (`closein`), nothing is left to read (`inp = []`, `inClosed`), the next iteration of the read-eval
+    loop executes nothing and ends, and the shell's exit status is `ExitStatus::READ_ERROR` (generated
+    constant): the commands read before have run, nothing after that command line is read -/
+theorem read_error_ends_the_run (s : State) (name : String) (args : List String) (here : Option (List Char))
+    (hsh : s.shared = true) (n : Nat) (log : List Iter) :
+    (execUtil s .closein name args here).inp = []
+    ∧ (execUtil s .closein name args here).inClosed = true
+    ∧ (execUtil s .closein name args here).out = s.out
+    ∧ (∀ t : State, t.inp = [] →
+        (loop (n + 1) t log).2.1 = .eof ∧ (loop (n + 1) t log).1.out = t.out
+        ∧ (t.inClosed = true → t.shared = true →
+            exitStatus (loop (n + 1) t log).1 (loop (n + 1) t log).2.1 = Generated.InputConsts.CMD_READ_ERROR)) := by
+  refine ⟨by simp [execUtil, execClose, State.setStdin, hsh], by simp [execUtil, execClose, State.setStdin, hsh],
+    by simp [execUtil, execClose, State.setStdin, hsh], ?_⟩
+  intro t ht
+  have hp : (pullOf t).res = .none := by
+    simp [pullOf, pull, ht, nextLine, nextLineGo, parse_nothing]
+  have hl : loop (n + 1) t log
+      = ({ afterPull t with hitEof := t.hitEof || !(pullOf t).text.isEmpty }, .eof, log ++ [iterOf t]) := by
+    simp only [loop, hp]
+  rw [hl]
+  refine ⟨rfl, rfl, ?_⟩
+  intro h1 h2
+  simp [exitStatus, readError, afterPull, h1, h2, Generated.InputConsts.CMD_READ_ERROR]
+
+
+example : (execUtil (initState true [112, 10] []) .closein "closein" [] none).inp = [] := by decide
+
+
+/-- ★ **the exit status at the end of an input is that of the last line that held a command, or 0 if no
+    line did** (`read_eval_loop_impl`: `executed |= !command.0.is_empty()`, `if !executed { exit_status =
+    SUCCESS }`).  For a nested loop (`eval`, `.`): a line without commands (`ok []`: blank, comment)
+    leaves `$?`, the output and the `executed` flag as they are and goes on with the rest of the source;
+    a line with commands sets the flag; at the end of the source `$?` is kept iff the flag is set, else
+    0.  For the main input: a line without commands is an iteration that changes nothing but the cursor
+    (and the echo), so `$?` at end of input is what the last command line left — 0 (the initial `$?`) if
+    there was none. -/
+theorem blank_lines_do_not_count (text : List Byte) (echoes executed : Bool) (k : List K) (s : State) :
+    ((pull (parserOf s) (text.length + 1) [] text).res = .ok [] →
+        (stepSrc text echoes executed k s).1
+          = .src (pull (parserOf s) (text.length + 1) [] text).rest echoes executed :: k
+        ∧ (stepSrc text echoes executed k s).2.status = s.status
+        ∧ (stepSrc text echoes executed k s).2.out = s.out)
+    ∧ (∀ c cs, (pull (parserOf s) (text.length + 1) [] text).res = .ok (c :: cs) →
+        (stepSrc text echoes executed k s).1
+          = cmds (c :: cs) ++ .src (pull (parserOf s) (text.length + 1) [] text).rest echoes true :: k)
+    ∧ ((pull (parserOf s) (text.length + 1) [] text).res = .none →
+        (stepSrc text echoes executed k s).1 = k
+        ∧ (stepSrc text echoes executed k s).2.status = if executed then s.status else 0)
+    ∧ (∀ n log, (pullOf s).res = .ok [] → s.aborted = false →
+        loop (n + 1) s log = loop n (atExec s) (log ++ [iterOf s])
+        ∧ (atExec s).status = s.status ∧ (atExec s).out = s.out) := by
+  refine ⟨?_, ?_, ?_, ?_⟩
+  · intro h
+    simp [stepSrc, h, cmds]
+  · intro c cs h
+    simp [stepSrc, h]
+  · intro h
+    simp [stepSrc, h]
+  · intro n log h ha
+    have hr : runK execFuel (cmds []) (atExec s) = (atExec s, true) := by
+      simp [execFuel, runK, cmds, step]
+    refine ⟨?_, rfl, rfl⟩
+    simp only [loop, h, hr]
+    have : (atExec s).aborted = false := ha
+    simp [this]
+
+
+example : (pull (parserOf (initState true [] [])) 4 [] [35, 99, 10]).res matches .ok [] := by decide
+
 end YashModel.Input
